@@ -239,6 +239,16 @@ def cases(size, seed, limit):
                (dot(a, nil), dot(a, nil, nil)), (dot(a, dot(b, nil)), dot(a, dot(b, nil), c)), (dot(a, dot(b, nil)), dot(a, dot(b, dot(c, nil)))),
                (dot(a, v0), dot(a, dot(b, nil))), (dot(a, dot(b, v0)), dot(v1, dot(b, dot(c, nil)))), (dot(v0, v0), dot(a, b)),
                (dot(a, b, c), dot(a, b, c)), (dot(a, b, v0), dot(a, b, c)), (('fun', 'g', (a, b)), ('fun', 'g', (a, b, c)))]
+    # lists against lists, every direction: 0..3 elements over {a, V2}, closed ([]), open (tail variable) or improper (tail b)
+    import itertools as _it
+    v2 = ('var', 2)
+
+    def mk(es, tail):
+        for x in reversed(es):
+            tail = dot(x, tail)
+        return tail
+    lists = [mk(es, tail) for n_ in range(4) for es in _it.product((a, v2), repeat=n_) for tail in (nil, v1, b)]
+    special += [(x, y) for x in lists for y in lists]
     leaves = [t for t in terms if t[0] != 'fun'][:8]
     oddp = [(o, t) for o in odd for t in leaves + odd + [('fun', 'f', (o,)), ('fun', 'g', (('var', 0), o))]]
     oddp += [(('fun', 'g', (('var', 0), ('var', 0))), ('fun', 'g', (o, ('const', 5)))) for o in odd]
